@@ -112,6 +112,9 @@ func (r *Req) Tokens() string {
 		if t == "id" {
 			t = "id " + u(r.TargetN)
 		}
+		if t == "near" {
+			t = fmt.Sprintf("near %d %d", r.N1, r.TargetN)
+		}
 		return fmt.Sprintf("join %d %d %s", r.Rid, r.Ots, t)
 	case "entityAdd":
 		return fmt.Sprintf("entityAdd %d %d %s %d %s", r.Rid, r.Ots, bl(r.Persist), r.Flag, PoseTok(r.Pose))
@@ -257,6 +260,9 @@ func ParseReq(toks []string) (*Req, error) {
 		if r.Target == "id" {
 			r.TargetN = t.u32()
 		}
+		if r.Target == "near" {
+			r.N1, r.TargetN = t.u32(), t.u32()
+		}
 	case "entityAdd":
 		r.Rid, r.Ots = t.u32(), t.u32()
 		r.Persist = t.next() == "1"
@@ -399,6 +405,10 @@ func (r *Req) Proto(globalID func(uint32) string, ts *timestamppb.Timestamp) (hw
 			sid = globalID(r.TargetN)
 		case "bogus":
 			sid = "no-such-session"
+		case "near":
+			// a string that is almost the id of session TargetN: it names no session
+			g := globalID(r.TargetN)
+			sid = []string{" " + g, g + " ", strings.ToUpper(g), strings.Replace(g, "x", "x0", 1), g + "\n"}[r.N1%5]
 		}
 		return &hagallpb.ParticipantJoinRequest{Type: hagallpb.MsgType_MSG_TYPE_PARTICIPANT_JOIN_REQUEST, Timestamp: ts,
 			RequestId: r.Rid, SessionId: sid}, nil
